@@ -97,10 +97,12 @@ func (c *Ctx) isMethodOn(call ssa.CallInstruction, name string, ifaces ...string
 	return false
 }
 
-var ifaceCache = map[string]*types.Interface{}
-
 // lookupIface finds "pkgpath.Name" among loaded packages and returns its interface underlying type.
 func (c *Ctx) lookupIface(q string) *types.Interface {
+	if c.ifaceCache == nil {
+		c.ifaceCache = map[string]*types.Interface{}
+	}
+	ifaceCache := c.ifaceCache
 	if it, ok := ifaceCache[q]; ok {
 		return it
 	}
